@@ -173,8 +173,10 @@ def id_sweep(ctx: Ctx) -> None:
 
     for framing in ("plain", "noise"):
         ids = list(range(0, 301)) + [65535]
+        lows = (5, 7, 8, 25, 36)    # disconnect, ping, pong, a state, time request: undefined numbers that EQUAL a defined id modulo a power of two
+        ids += [b + k for b in (256, 512, 1 << 14, 1 << 15, 0xFF00) for k in lows if b + k < 65536]
         if framing == "plain":
-            ids += [2**21, 2**32 - 1]
+            ids += [2**21, 2**32 - 1] + [b + k for b in (1 << 16, 1 << 21, 1 << 28, 1 << 31, 1 << 32, 1 << 35, 1 << 56, 1 << 63, 1 << 64, 1 << 70) for k in (0,) + lows]
         with Sim() as sim:
             live = Live(sim, framing)
             for k, ty in enumerate(ids):
@@ -589,6 +591,62 @@ def bad_payload_without_subscriber(ctx: Ctx) -> None:
                                           f"{live.conn.connection_state.name}, first fatal {first!r}; expected CLOSED with ProtocolAPIError", case, trace=sim.trace(25))
 
 
+def close_inside_delivery(ctx: Ctx) -> None:
+    """The connection is closed from INSIDE the delivery of a message - by the library's own handler (a DisconnectRequest with application
+    subscribers registered for that type too) or by a subscriber that force-disconnects: every subscriber registered for the type at that
+    moment still gets the message exactly once (handler sets are unordered, so the closing handler may run first, last or in between)."""
+    from aioesphomeapi import api_pb2 as pb
+
+    res = ctx.res
+    idx = 0
+    for framing in ("plain", "noise"):
+        for kind in ("peer-disconnect-request", "subscriber-forces-disconnect", "subscriber-forces-disconnect-all"):
+            for n_subs in (1, 2, 3, 7, 40):
+                for rep in range(3):
+                    idx += 1
+                    if not ctx.mine(idx):
+                        continue
+                    with Sim() as sim:
+                        live = Live(sim, framing, record_all=False)
+                        live.ensure()
+                        conn = live.conn
+                        calls: list[int] = []
+                        cls = pb.DisconnectRequest if kind == "peer-disconnect-request" else pb.SensorStateResponse
+                        closers = set(range(n_subs)) if kind.endswith("-all") else {(rep * 3) % n_subs} if kind.startswith("subscriber") else set()
+
+                        def mk(i: int) -> Any:
+                            def cb(m: Any) -> None:
+                                calls.append(i)
+                                if i in closers:
+                                    conn.force_disconnect()
+                            return cb
+
+                        # registration order varies with rep: other types registered in between change nothing for this type
+                        for i in range(n_subs):
+                            conn.add_message_callback(mk(i), (cls,) if (i + rep) % 2 else (cls, pb.TextSensorStateResponse))
+                        n_rx = len(live.dconn.received)
+                        live.dconn.send_msg(cls())
+                        live.dconn.send_msg(pb.SensorStateResponse(key=2))      # behind the closing message: must reach nobody
+                        sim.run_for(0.01)
+                        res.evaluations += 1
+                        res.count(f"workload/close-inside-delivery/{kind}")
+                        res.sig("close-inside", framing, kind, n_subs, rep)
+                        case = {"framing": framing, "close_inside_delivery": kind, "subscribers": n_subs, "rep": rep}
+                        exp = sorted(range(n_subs))
+                        if sorted(calls) != exp:
+                            missing = [i for i in exp if i not in calls]
+                            res.violation("C12/close-inside-delivery/" + ("skipped" if missing else "extra"),
+                                          f"{framing}: {n_subs} subscribers registered for {cls.__name__}, the connection is closed while it is being delivered "
+                                          f"({kind}): {len(calls)} callbacks, never called: {missing[:8]}, more than once or after close: {sorted(set(c for c in calls if calls.count(c) > 1))[:8]}",
+                                          case, trace=sim.trace(30))
+                        if conn.connection_state.name != "CLOSED":
+                            res.violation("C12/close-inside-delivery/not-closed", f"state {conn.connection_state.name}", case)
+                        if kind == "peer-disconnect-request":
+                            wrote = [r["name"] for r in live.dconn.received[n_rx:]]
+                            if wrote != ["DisconnectResponse"]:
+                                res.violation("C12/close-inside-delivery/disconnect-not-answered", f"client wrote {wrote}", case)
+
+
 def shard(ctx: Ctx) -> None:
     from vf.sim import device as _device
 
@@ -599,6 +657,7 @@ def shard(ctx: Ctx) -> None:
     id_sweep(ctx)
     histories(ctx)
     peer_requests_during_connect(ctx)
+    close_inside_delivery(ctx)
 
 
 def replay(spec: dict[str, Any]) -> int:
